@@ -921,3 +921,47 @@ Definition check_mech_diverges_deferred (p : prog) : bool :=
               end
   | _ => false
   end.
+
+(* ---------- isolated fragment widened by {% for %} at template level (Core/MechFor.v) ---------- *)
+(* expressions at template level: variables other than the reserved loop-counter name, is_filled, forloop.counter *)
+Definition expr_okf (e : expr) : bool :=
+  match e with
+  | EStr _ => true
+  | EVar x => uname x && negb (str_eqb x counter_key)
+  | EDot x _ => uname x && negb (str_eqb x counter_key)
+  | EFilled _ => true
+  | ECounter => true
+  end.
+Definition kw_okf (kw : list (str * expr)) : bool := forallb (fun ke => expr_okf (snd ke)) kw.
+Definition val_expr_okf (e : expr) : bool := match e with EFilled _ => false | _ => expr_okf e end.
+
+(* inl: inside the body of a {% for %} of this template.  Loops stand in page / component templates (also in slot
+   defaults, if / with / other loops) around text, {{ }}, if, with and slot tags; a loop body contains no component tag;
+   the body of a component tag is a wf_t body (no loop in it). *)
+Fixpoint wf_tf (inl : bool) (G : list str) (t : tpl) {struct t} : bool :=
+  let wl := fix wl (inl : bool) (G : list str) (ts : list tpl) {struct ts} : bool :=
+    match ts with [] => true | t :: r => wf_tf inl G t && wl inl G r end in
+  match t with
+  | TText _ => true
+  | TOut e => expr_okf e
+  | TIf c a b => expr_okf c && wl inl G a && wl inl G b
+  | TFor x e body => expr_okf e && binder_ok x && negb (smemb x G) && wl true (x :: counter_key :: G) body
+  | TWith x e body => val_expr_okf e && binder_ok x && negb (smemb x G) && wl inl (x :: G) body
+  | TSlot _ _ _ data body => kw_okf data && wl inl G body
+  | TFill _ _ _ _ => false
+  | TComp _ kw _ body => negb inl && kw_okf kw && wf_l true G body
+  | TProvide _ _ _ => false
+  end.
+Fixpoint wf_lf (inl : bool) (G : list str) (ts : list tpl) : bool :=
+  match ts with [] => true | t :: r => wf_tf inl G t && wf_lf inl G r end.
+
+Definition wf_cdef_f (cd : cdef) : bool :=
+  forallb (fun xd => binder_ok (fst xd) && dexpr_ok (snd xd)) (c_data cd) &&
+  wf_lf false (map fst (c_data cd)) (c_tpl cd) &&
+  all_same (slot_defaults (c_tpl cd)).
+
+Definition wf_prog_for (p : prog) : bool :=
+  match p_mode p with Isolated => true | Django => false end &&
+  forallb (fun nc => wf_cdef_f (snd nc)) (p_lib p) &&
+  forallb (fun kv => binder_ok (fst kv)) (p_ctx p) &&
+  wf_lf false (map fst (p_ctx p)) (p_page p).
